@@ -8,3 +8,7 @@ ASSUMPTIONS = ["sockets actually bound and restart behaviour are not decided (C1
 
 def run(rep, W, ctx):
     WR.c17(rep, W)
+    # "enforces exactly the given client-id allow-list" = the list reaches the server unchanged (above) AND the server
+    # enforces whatever list it was given (the C16 obligations: helper decision table, dominance, immutability)
+    from rules import http as H
+    H.c16(rep, W)
